@@ -411,6 +411,10 @@ def run(ctx, report):
     input_untouched_rule(ctx, R10)
 
     # ---------------------------------------------------------------- D9 the memory model works on addresses of one width
+    R11 = report.rule('C06.D11', 'eval_expr simplifies its argument and every operand: each rewriting step of the simplifier keeps width and value (the family of C05.D2-D4, evaluated from the source)', floor=30)
+    from .. import simpeval
+    simpeval.emit(R11, ctx, lambda l: True, ('value', 'width', 'result', 'raises', 'loops'))
+
     R9 = report.rule('C06.D9', 'the memory model adds 32-bit constants to cell addresses: every address that enters it (read, store) is widened to 32 bits first', floor=3)
     addr_width_rule(R9, ea, methods)
 
